@@ -245,6 +245,51 @@ def twin_of(s: dict, rng: random.Random) -> dict:
     return t
 
 
+def name_twin_of(s: dict, rng: random.Random) -> dict:
+    """the same sprite - pixels, colours, ids, sizes - under other NAMES (palette entries, layers, tags, slices, tilesets,
+    external files) and other user-data texts: two sprites that differ in nothing a colour or a size can tell apart"""
+    import copy
+    t = copy.deepcopy(s)
+
+    def rn(x):
+        return None if x is not None and rng.random() < 0.3 else ("twin-" + (x or "") + "\u00e9")[:rng.choice([3, 8, 40])]
+    if t["palette"]:
+        ren = {k: rn(e[4]) for k, e in t["palette"].items()}
+        t["palette"] = {k: (e[0], e[1], e[2], e[3], ren[k]) for k, e in t["palette"].items()}
+        if all(pc[0] == "new" for pc in t["palette_chunks"]):
+            t["palette_chunks"] = [("new", pc[1], [(e[0], e[1], e[2], e[3], ren.get(pc[1] + j, e[4])) for j, e in enumerate(pc[2])]) for pc in t["palette_chunks"]]
+            # a later chunk overwrites an earlier one: take the final names from the chunks, in order
+            fin = {}
+            for pc in t["palette_chunks"]:
+                for j, e in enumerate(pc[2]):
+                    fin[pc[1] + j] = e
+            t["palette"] = {k: fin.get(k, e) for k, e in t["palette"].items()}
+        else:
+            t["palette"] = copy.deepcopy(s["palette"])
+    for lay in t["layers"]:
+        lay["name"] = rn(lay["name"]) or ""
+    for tg in t["tags"]:
+        tg["name"] = rn(tg["name"]) or ""
+    for sl in t["slices"]:
+        sl["name"] = rn(sl["name"]) or ""
+    for ts in t["tilesets"]:
+        ts["name"] = rn(ts["name"]) or ""
+    t["ext_files"] = [(i, rn(nm) or "x") for i, nm in t["ext_files"]]
+    return t
+
+
+def poison_files() -> List[bytes]:
+    """inputs that are refused INSIDE the inflate step (a corrupt deflate stream, a stream cut short, a stream that decodes to
+    fewer bytes than declared, one that decodes to more): loaded between well-formed sprites on one thread, they must leave
+    nothing behind"""
+    good = ase.deflate(bytes(range(64)))
+    out = []
+    for z in (good[:2] + bytes([0xFF] * 12), good[:len(good) // 2], ase.deflate(bytes(16)), ase.deflate(bytes(300))):
+        fr = ase.Frame(chunks=[ase.LayerChunk(), ase.CelChunk(layer=0, w=4, h=4, ctype_cel=2, zraw=z)])
+        out.append(ase.serialize(ase.Sprite(width=4, height=4, frames=[fr])))
+    return out
+
+
 def small_sprites(rng: random.Random, n: int, **kw) -> List[Tuple[dict, bytes]]:
     out = []
     for i in range(n):
@@ -949,6 +994,11 @@ def run_sprites(prop: str, tier: str, seed: int, level: int, nq: int, nt: int, g
                 t = twin_of(s, rng)
                 td = gen.encode(t, None, rng)
                 cases.append((t, td, w.put(td)))
+            elif i % 3 == 1 and i < 400:
+                # or a twin that differs in names only (the driver keeps the previous sprite alive while the next one is loaded)
+                t = name_twin_of(s, rng)
+                td = gen.encode(t, None, rng)
+                cases.append((t, td, w.put(td)))
         if extra_cases:
             for i, (s, data) in enumerate(extra_cases(rng, tier)):
                 cases.append((s, data, w.put(data)))
@@ -988,7 +1038,16 @@ def run_sprites(prop: str, tier: str, seed: int, level: int, nq: int, nt: int, g
                     direct_fail.append({"what": msg, "sprite": gen.describe(s), "_data": data})
         # the generated sprites once more, all on ONE thread of ONE driver process, in list order (twins - same structure, other
         # pixel values - sit next to each other): a result must not depend on what was loaded or rendered before
-        seq = vplib.impl_observe(profiles[0], paths, w.dir, level, max_frames=max_frames, max_layers=max_layers, shards=1, tag="seq")
+        # ... nor on an input that was REFUSED before it: every 12th position of the list gets a file that fails inside inflate
+        poison = [w.put(d) for d in poison_files()]
+        seq_paths, pos = [], []
+        for i, pth in enumerate(paths):
+            if i % 12 == 5:
+                seq_paths.append(poison[(i // 12) % len(poison)])
+            pos.append(len(seq_paths))
+            seq_paths.append(pth)
+        seq_all = vplib.impl_observe(profiles[0], seq_paths, w.dir, level, max_frames=max_frames, max_layers=max_layers, shards=1, tag="seq")
+        seq = [seq_all[k] for k in pos]
         for i, (s, data, _p) in enumerate(cases):
             if seq[i] is None or ib[i] is None or seq[i][0] != ib[i][0]:
                 direct_fail.append({"what": "the observation of a sprite depends on the sprites loaded and rendered before it on the same thread",
